@@ -38,6 +38,8 @@ PROPS = {
     'C17': dict(
         modules=['NitroVerif.Props.C17'],
         iruns=[('barrier', gens.gen_barrier, 150, 6000)],
+        runs=[('mvcc', gens.gen_mvcc_mm, 60, 4000)],
+        keep_prefix=1,
         level='proof',
         level_text='C17_quiescent_nothing_pending is proved in Lean for the current protocol (with the re-check after the destructor flag is dropped), every schedule, any number of threads; C17_unfixed_counterexample is the kernel-checked witness for the original code; tie as for C16, and every steered run ends quiescent so the property itself is evaluated on the real barrier',
         trusted=['Lean 4 kernel', 'tools/gofacts translation of access_barrier.go thresholds, tests and operation skeletons',
@@ -79,7 +81,7 @@ PROPS = {
     ),
     'C09': dict(
         modules=['NitroVerif.Props.C09'],
-        runs=[('mvcc', gens.gen_mvcc_iter, 400, 40000)],
+        runs=[('mvcc', gens.gen_mvcc_iter, 400, 40000), ('mvcc', gens.gen_mvcc_visit, 100, 5000)],
         keep_prefix=1,
         level='proof',
         level_text='C09_iterator_exact, C09_rate_independent, C09_refresh_independent: Seek/SeekFirst/Next/Refresh of the model iterator equal the positions in the snapshot content for every reachable state and every call sequence; refresh rates and explicit refreshes are unobservable. The skip and refresh conditions and the operation order inside Next/Refresh/Seek are regenerated from iterator.go',
@@ -142,7 +144,7 @@ PROPS = {
     ),
     'C15': dict(
         modules=['NitroVerif.Props.C15'],
-        iruns=[('skipconc', gens.gen_skipconc, 150, 6000), ('skipconc', gens.gen_skipconc_scan, 100, 4000)],
+        iruns=[('skipconc', gens.gen_skipconc, 150, 6000), ('skipconc', gens.gen_skipconc_scan, 100, 4000), ('skipconc', gens.gen_skipconc_free, 60, 3000)],
         level='proof',
         level_text='C15_monotone_partial, C15_research_ge_partial (Next never moves backwards on any of its three paths), C15_seek_ge_partial, C15_seek_no_stable_between are proved for every interleaving on the concurrent model. PARTIAL: whole-scan completeness/presence (C15_complete, C15_present) are not proved; steered schedules with iterators parked on nodes that are deleted (helpDelete success and failure paths) are validated against the model',
         trusted=['Lean 4 kernel', 'tools/gofacts skeleton of skiplist Iterator.Next', 'steered iterator/insert/delete schedules validated step by step'],
@@ -176,7 +178,8 @@ PROPS = {
     ),
     'C04': dict(
         modules=['NitroVerif.Props.C04', 'NitroVerif.Props.C16', 'NitroVerif.Props.C13c'],
-        iruns=[('mvccconc', gens.gen_mvccconc, 120, 5000), ('barrier', gens.gen_barrier, 80, 3000), ('skipconc', gens.gen_skipconc, 80, 3000)],
+        iruns=[('mvccconc', gens.gen_mvccconc, 120, 5000), ('barrier', gens.gen_barrier, 80, 3000), ('skipconc', gens.gen_skipconc, 80, 3000),
+               ('skipconc', gens.gen_skipconc_free, 80, 3000)],
         runs=[('mvcc', gens.gen_mvcc_mm, 150, 10000), ('mvcc', gens.gen_backup_stress, 12, 400)],
         keep_prefix=1,
         level='proof',
@@ -217,7 +220,7 @@ SHAPES = {
     'C01': ['Mvcc', 'SkipConc'], 'C02': ['Mvcc'], 'C03': ['Mvcc', 'SkipConc'], 'C04': ['Mvcc', 'SkipConc', 'Barrier'],
     'C05': ['Backup', 'Codec', 'Visitor', 'SkipSeq', 'Mvcc'], 'C06': ['Mvcc'], 'C07': ['Mvcc', 'Barrier', 'Backup', 'SkipSeq'],
     'C08': ['Mvcc'], 'C09': ['Mvcc', 'SkipConc'], 'C10': ['Visitor', 'Mvcc', 'SkipConc'], 'C11': ['Backup', 'Codec'], 'C12': ['Backup', 'Codec'],
-    'C13': ['SkipConc'], 'C14': ['SkipConc', 'SkipSeq', 'Backup'], 'C15': ['SkipConc'], 'C16': ['Barrier'], 'C17': ['Barrier'],
+    'C13': ['SkipConc'], 'C14': ['SkipConc', 'SkipSeq', 'Backup'], 'C15': ['SkipConc'], 'C16': ['Barrier'], 'C17': ['Barrier', 'Mvcc'],
     'C18': ['SkipSeq'], 'C19': ['Codec'], 'C20': ['Table'],
 }
 
@@ -368,7 +371,11 @@ def check(prop, tier, seed, no_build=False):
             rcw, outw, errw = C.run_script(C.NVDRIVE, text, 120, env=C.GOENV)
             got = outw[w['line'] + 2] if len(outw) > w['line'] + 2 else '<no output>'
             cov.setdefault('known_finding_witnesses', []).append({'id': k['id'], 'observed': got[:200], 'property_allows': w['property_allows'][:200]})
-            if not C.line_match(got, w['property_allows']):
+            if w['property_allows'] == '<any answer>':
+                holds = got != '<no output>' and not got.startswith('hang')      # the implementation died or hung there
+            else:
+                holds = C.line_match(got, w['property_allows'])
+            if not holds:
                 known_lines.append('KNOWN-FINDING: property=%s %s' % (prop, k['what']))
     reported = []
     for v in violations:
